@@ -39,6 +39,7 @@ type segment struct {
 	optional bool
 	iterator bool
 	slice    []int64 // either 0-length or 2-length
+	named    bool    // the segment is a field lookup (the field name can be empty)
 	field    string
 	index    int
 }
@@ -79,13 +80,6 @@ func (s segment) Index() int {
 }
 
 func resolve(sel Selector, subject ipld.Node, at []string) (ipld.Node, error) {
-	errIfNotOptional := func(s segment, err error) error {
-		if !s.Optional() {
-			return err
-		}
-		return nil
-	}
-
 	cur := subject
 	for _, seg := range sel {
 		// 1st level: handle the different segment types (iterator, field, slice, index)
@@ -127,18 +121,19 @@ func resolve(sel Selector, subject ipld.Node, at []string) (ipld.Node, error) {
 				if err != nil {
 					panic("should never happen")
 				}
-				return nd, nil
+				cur = nd
 
 			default:
 				return nil, newResolutionError(fmt.Sprintf("can not iterate over kind: %s", kindString(cur)), at)
 			}
 
-		case seg.Field() != "":
+		case seg.named:
 			at = append(at, seg.Field())
 			switch {
 			case cur == nil:
-				err := newResolutionError(fmt.Sprintf("can not access field: %s on kind: %s", seg.Field(), kindString(cur)), at)
-				return nil, errIfNotOptional(seg, err)
+				if !seg.Optional() {
+					return nil, newResolutionError(fmt.Sprintf("can not access field: %s on kind: %s", seg.Field(), kindString(cur)), at)
+				}
 
 			case cur.Kind() == datamodel.Kind_Map:
 				n, err := cur.LookupByString(seg.Field())
@@ -154,14 +149,18 @@ func resolve(sel Selector, subject ipld.Node, at []string) (ipld.Node, error) {
 				}
 
 			default:
-				err := newResolutionError(fmt.Sprintf("can not access field: %s on kind: %s", seg.Field(), kindString(cur)), at)
-				return nil, errIfNotOptional(seg, err)
+				if !seg.Optional() {
+					return nil, newResolutionError(fmt.Sprintf("can not access field: %s on kind: %s", seg.Field(), kindString(cur)), at)
+				}
+				cur = nil
 			}
 
 		case len(seg.Slice()) > 0:
 			if cur == nil {
-				err := newResolutionError(fmt.Sprintf("can not slice on kind: %s", kindString(cur)), at)
-				return nil, errIfNotOptional(seg, err)
+				if !seg.Optional() {
+					return nil, newResolutionError(fmt.Sprintf("can not slice on kind: %s", kindString(cur)), at)
+				}
+				continue
 			}
 
 			slice := seg.Slice()
@@ -205,8 +204,10 @@ func resolve(sel Selector, subject ipld.Node, at []string) (ipld.Node, error) {
 			at = append(at, strconv.Itoa(seg.Index()))
 
 			if cur == nil {
-				err := newResolutionError(fmt.Sprintf("can not access index: %d on kind: %s", seg.Index(), kindString(cur)), at)
-				return nil, errIfNotOptional(seg, err)
+				if !seg.Optional() {
+					return nil, newResolutionError(fmt.Sprintf("can not access index: %d on kind: %s", seg.Index(), kindString(cur)), at)
+				}
+				continue
 			}
 
 			idx := seg.Index()
@@ -216,8 +217,11 @@ func resolve(sel Selector, subject ipld.Node, at []string) (ipld.Node, error) {
 					idx = int(cur.Length()) + idx
 				}
 				if idx < 0 || idx >= int(cur.Length()) {
-					err := newResolutionError(fmt.Sprintf("index out of bounds: %d", seg.Index()), at)
-					return nil, errIfNotOptional(seg, err)
+					if !seg.Optional() {
+						return nil, newResolutionError(fmt.Sprintf("index out of bounds: %d", seg.Index()), at)
+					}
+					cur = nil
+					continue
 				}
 				cur, _ = cur.LookupByIndex(int64(idx))
 
@@ -227,13 +231,19 @@ func resolve(sel Selector, subject ipld.Node, at []string) (ipld.Node, error) {
 					idx = len(b) + idx
 				}
 				if idx < 0 || idx >= len(b) {
-					err := newResolutionError(fmt.Sprintf("index %d out of bounds for bytes of length %d", seg.Index(), len(b)), at)
-					return nil, errIfNotOptional(seg, err)
+					if !seg.Optional() {
+						return nil, newResolutionError(fmt.Sprintf("index %d out of bounds for bytes of length %d", seg.Index(), len(b)), at)
+					}
+					cur = nil
+					continue
 				}
 				cur = basicnode.NewInt(int64(b[idx]))
 
 			default:
-				return nil, newResolutionError(fmt.Sprintf("can not access index: %d on kind: %s", seg.Index(), kindString(cur)), at)
+				if !seg.Optional() {
+					return nil, newResolutionError(fmt.Sprintf("can not access index: %d on kind: %s", seg.Index(), kindString(cur)), at)
+				}
+				cur = nil
 			}
 		}
 	}
